@@ -15,6 +15,7 @@ CONSTANTS
   LockNames <- MC_LockNames
   CallerIds <- MC_CallerIds
   Files <- MC_Files
+  WithEdits = FALSE
   WithReload = TRUE
   Lookups = FALSE
   Phased = FALSE
